@@ -661,7 +661,8 @@ class Mitochondria:
                             raise ValueError("Too many elements for a function-valued argument")
                     if callable(func):
                         return func(*args, **kwargs)
-                    return func  # Constants like pi, e
+                    # Constants like pi, e are values, not functions
+                    raise TypeError(f"'{type(func).__name__}' object is not callable")
                 raise ValueError(f"Unknown function: {func_name}")
             raise ValueError("Complex function calls not supported")
 
